@@ -4,7 +4,7 @@ import json
 CLAIMED = {
  "C14": dict(level="fault_enumeration", design="DESIGN.md §4.6",
    technique="deterministic fault injection: structure-aware at-rest faults (retarget / boundary / nest / hostile xref fields) planted through the harness writer, walked under simulated resource limits (stack size, allocator caps and meters, work budget) in supervised worker processes",
-   text="Typed templates covering the followed reference fields and numeric parameters named in the property; the complete single-fault space (every reference field x every object incl. itself, object 0 and an undefined number; every numeric field x six boundary values; nesting; stream /Length references; hostile trailer and xref-stream fields incl. /Prev self-loops) is enumerated for all 10 templates in four configurations (both tiers), plus seeded 2-3-fault cases (30 000 quick / 2 000 000 thorough); each case is walked through every read entry point with panics caught, stack overflow / abort / allocation refusal / timeout observed as worker death and confirmed twice.",
+   text="Typed templates covering the followed reference fields and numeric parameters named in the property; the complete single-fault space (every reference field x every object incl. itself, object 0 and an undefined number; every numeric field x six boundary values; nesting; stream /Length references; hostile trailer and xref-stream fields incl. /Prev self-loops) is enumerated for all 10 templates in four configurations (both tiers), plus seeded 2-3-fault cases (100 000 quick / 2 000 000 thorough); each case is walked through every read entry point with panics caught, stack overflow / abort / allocation refusal / timeout observed as worker death and confirmed twice.",
    note="Planting the structure is generation (stated in DESIGN.md); the simulation part is the resource side. Templates are small; resource constants are loose bounds against unboundedness."),
  "C01": dict(level="fault_enumeration", design="DESIGN.md §4.5",
    technique="deterministic fault injection on the storage seam (at-rest corruption, EOF anywhere, sector faults, splices) + metered allocator / stack / work budgets, each case walked through every read entry point in a supervised worker process",
